@@ -274,7 +274,8 @@ class Memory:
         self.__max = maxSize
 
     def WriteTo(self, output: BinaryIO):
-        if self.__max:
+        # A maximum of 0 is a maximum as well
+        if self.__max is not None:
             WriteByte(output, 0x01)
             WriteInteger(output, self.__min)
             WriteInteger(output, self.__max)
